@@ -56,6 +56,9 @@ func (consumersSuite) Gen(r *rand.Rand, i int) Case {
 			pn, pdur, psize = 6, 60_000_000_000, 100
 		}
 	}
+	if len(dtags) > 0 && r.Intn(2) == 0 {
+		slo = 0 // unset on every layer: 250 ms; the run durations below sit around it
+	}
 	_ = psize
 	c := Case{Header: fmt.Sprintf("consumers n=%d dur=%d pn=%d pdur=%d psize=%d slo=%d to=%d mc=%d fbmc=%d", hn, hdur, hpn, hpdur, hpsize, slo, to,
 		[]int64{-1, 0, 10, 10}[r.Intn(4)], []int64{-1, 0, 10, 10}[r.Intn(4)]), Tags: dtags}
@@ -86,7 +89,11 @@ func (consumersSuite) Gen(r *rand.Rand, i int) Case {
 		case x < 60:
 			run := pick(r, "nil", "nil", fmt.Sprintf("e%d", id), fmt.Sprintf("e%d", id), fmt.Sprintf("bad%d", id), "ctxerr")
 			id++
-			radv := []int64{0, unit, slo - 2, slo - 1, slo, to - 2, to - 1, to, 7*unit + unit/2}[r.Intn(9)]
+			sloEff := slo
+			if sloEff == 0 {
+				sloEff = 250_000_000
+			}
+			radv := []int64{0, unit, sloEff - 2, sloEff - 1, sloEff, to - 2, to - 1, to, 7*unit + unit/2}[r.Intn(9)]
 			if radv < 0 {
 				radv = 0
 			}
@@ -204,6 +211,10 @@ func (consumersSuite) Run(h map[string]string, ops []string) []string {
 			},
 		},
 		CollectorConstructors: []func(string) responsetimeslo.Collector{func(string) responsetimeslo.Collector { return sc }}}
+	if sloV == 0 {
+		// slo=0: the healthy time is LEFT UNSET on every layer — the documented default (250 ms) applies
+		slof = &responsetimeslo.Factory{CollectorConstructors: slof.CollectorConstructors}
+	}
 	statCtor := sf.CreateConfig
 	if h["coll"] == "run" {
 		statCtor = func(name string) circuit.Config {
